@@ -483,7 +483,8 @@ class LayerSet(BaseObject):
                     layer.reloadGlyphs(glyphNames)
             # handle the order
             if layerData.get("order", False):
-                newLayerOrder = reader.getLayerNames()
+                # layers that are not (or no longer) in this layer set have no place in its order
+                newLayerOrder = [layerName for layerName in reader.getLayerNames() if layerName in self._layers]
                 for layerName in self.layerOrder:
                     if layerName not in newLayerOrder:
                         newLayerOrder.append(layerName)
